@@ -2,6 +2,7 @@
 \* outcome and cell value for Rule = "fixed" (conformance information, not a verdict)
 CONSTANTS
   Rule = "fixed"
+  StoreRead = "snapshot"
   Treadmill = FALSE
   Record = TRUE
   MaxBlock = 3
